@@ -19,8 +19,13 @@ CLAIMED = {
  "C03": ("other", "Per-pair posts of Assorter.overstatement and Assertion.overstatement_assorter proved for fully symbolic (MVR, CVR) pairs with an "
          "interface-contracted assorter; population identity proved as a lemma over ghost sums for unbounded n; pool means / margins / "
          "add_pool_contests checked on bounded lists (n <= 3 symbolic cards).", "list-level code bounded; assorter abstracted by its interface", "§4.C03"),
- "C04": ("other", "Bounded stand-in: exhaustive small profiles (2-3 candidates all multisets of <= 4-5 ballots, 4 candidates sampled) against a brute-force "
-         "oracle over all elimination orders and all true NEB/NEN assertions; ballot predicates proved in C14 scripts.", "bounded only for the search", "§4.C04"),
+ "C04": ("other", "Deductive part: the per-node step of the search, find_best_audit, is proved for 3 candidates, every tail, ANY number of symbolic "
+         "ballots, a symbolic NEB matrix and an uninterpreted difficulty function: a chosen NEN is NEN(first in tail, later candidate | exactly the "
+         "candidates outside the tail), reports the true tallies over the ballots (sums proved pointwise equal to 'first standing preference'), "
+         "winner strictly larger, and the chosen assertion has the least difficulty among all applicable assertions (none iff none applies); "
+         "ballot predicates proved in the C14 scripts. The search loop itself (frontier, pruning, termination) is covered by a bounded stand-in: "
+         "exhaustive small profiles (2-3 candidates all multisets of <= 4-5 ballots, 4 candidates sampled) against a brute-force oracle over all "
+         "elimination orders and all true NEB/NEN assertions.", "search loop bounded; per-node choice proved for 3 candidates", "§4.C04"),
  "C05": ("proof", "Relational (two-run) obligations on the real code: histories of two samples agreeing in the first k draws agree in the first k "
          "entries; truncation leaves k-1 entries unchanged and the k-th equal or 0 when the total exceeds N t; every shipped estimator/bet entry j "
          "is a function of x_0..x_{j-1}. Unbounded in n via induction lemmas on ghost running sums/products.",
@@ -28,10 +33,20 @@ CLAIMED = {
  "C06": ("other", "Range 0 <= B <= 2/(2-v/u) and u proved per symbolic pair; mvrs_to_data filter, order and u proved for lists of <= 3 symbolic "
          "(MVR,CVR) pairs (all presence patterns); set_p_values proved to install u before each test call for bounded contest/assertion shapes; "
          "IRV assorter values in {0,1/2,1} (C14 scripts).", "list length and contest/assertion shapes bounded", "§4.C06"),
- "C07": ('other', 'consistent_sampling executed symbolically for 1-3 cards x 2 contests with symbolic styles, pairwise distinct symbolic sample numbers and symbolic sample sizes: selection, order, thresholds and flags proved equal to the closed form for that structure; exhaustive native stand-in up to 4-5 cards; per-contest data filter (mvrs_to_data) proved for <= 3 pairs; assign_sample_nums bounded.',
-         'number of cards / contests bounded; sample numbers reals', '§4.C07'),
- "C08": ('other', 'Scoring clauses (phantom MVR never increases B; phantom CVR scored 1/2) proved per symbolic pair; make_phantoms accounting proved for <= 2 symbolic CVRs x 2 contests with symbolic styles and concrete shortfalls 0..2, plus exhaustive native stand-in (<= 3-4 CVRs).',
-         'accounting structure-bounded', '§4.C08'),
+ "C07": ('other', "UNBOUNDED (symbolic number of cards, 2 contests): consistent_sampling's while loop proved by an inductive invariant on the real body "
+         "(per-contest count = min(n_c, cards of c so far), threshold = sample number of c's n_c-th card, the p-th selected card is the p-th card "
+         "that lists a contest whose first n_c cards are incomplete, position advances by one, no IndexError given n_c <= cards listing c); "
+         "sorted(enumerate(..), key=sample_num) by its contract (permutation ordered by the key, key checked to be the sample number). "
+         "Structure-bounded (1-3 cards, every leaf symbolic): full closed form incl. returned order and the sampled flags; exhaustive native "
+         "stand-in up to 4-5 cards; per-contest data filter (mvrs_to_data) proved for <= 3 pairs; assign_sample_nums bounded.",
+         'contests fixed at 2 in the unbounded proof; contract of sorted trusted; flag-setting loop only in the structure-bounded scripts', '§4.C07'),
+ "C08": ('other', "UNBOUNDED (symbolic number of CVRs, card bounds and phantoms, 2 contests): make_phantoms proved through verified loop summaries of "
+         "its three loops (append loops: the real body run on a list of arbitrary length; `while` test proved equivalent to len < final length; "
+         "contest-listing loop: real body run at an arbitrary position, frame checked): originals first and identical, returned count, phantom "
+         "flags, unique identifiers, number of phantoms = largest shortfall, phantom q lists c iff q < cards_c - cvrs_c, records listing c = "
+         "cards_c (counting lemma by induction), total = stratum bound without style. Scoring clauses (phantom MVR never increases B; phantom CVR "
+         "scored 1/2) proved per symbolic pair; structure-bounded scripts (<= 2 CVRs) and exhaustive native stand-in (<= 3-4 CVRs) kept.",
+         'contests fixed at 2; input records are real CVRs (phantom=False); str(int) injective', '§4.C08'),
  "C09": ("other", "set_p_values / summarize_status / reset_p_values proved for every symbolic p-value, risk limit and proved-flag over bounded shapes "
          "(1-3 contests x 1-2 assertions).", "shapes bounded", "§4.C09"),
  "C10": ("other", "Bounded stand-in: two rounds with every pair of size vectors n <= n' on <= 4-5 cards, redraw and continue variants; p-value "
@@ -51,8 +66,10 @@ CLAIMED = {
          "assorter built by the real make_assertions_from_json equals (w-l+1)/2 of the real NEN/NEB verdicts, and the verdicts equal their closed "
          "forms (proved, both modules executed symbolically on linked inputs); readers of the RAIRE format agree: bounded stand-in over small files; "
          "re-applied tallies: RAIRE bounded stand-in (C04).", "candidate count fixed at 4 in the proved part; readers bounded", "§4.C14"),
- "C15": ("other", "Bounded stand-in shared with C04: largest difficulty of the returned set equals max over alternative orders of the cheapest true "
-         "assertion contradicting it (brute force), both difficulty functions, with/without order hint.", "bounded only", "§4.C15"),
+ "C15": ("other", "Deductive part shared with C04 (find_best_audit chooses the least-difficulty applicable assertion for its node; bp/cp estimators: "
+         "closed forms and strict monotonicity in the margin). Whole-search optimality: bounded stand-in shared with C04 (largest difficulty of the "
+         "returned set equals max over alternative orders of the cheapest true assertion contradicting it, by brute force, both difficulty "
+         "functions, with/without order hint).", "search loop bounded", "§4.C15"),
  "C16": ('other', "Proved for symbolic sizes: NonnegMean.sample_size deterministic branch (tiling, first crossing, else N); Assertion.interleave_values by a loop invariant (exact counts, n_big >= 1); Assertion.find_sample_size comparison data (x[i] by position for symbolic N and steps, delegation with the contest's risk limit). Bounded stand-ins: polling data, contest / audit maxima, prefix-crossing simulations. Known finding K7.",
          'test abstracted by its C11 interface; int(1/rate) handled for rates of the form 1/step', '§4.C16'),
  "C17": ('other', "Proved for a SYMBOLIC number of batches (pandas abstracted to columns, np.searchsorted by its contract, cumulative counts as ghost sums): one sample number maps to a batch and position with position within the batch's size and s = cards before + position (Dominion 1-based/left, Hart 0-based/right), phantom MVR iff phantom batch; prep_manifest refuses / appends exactly as stated. Bounded stand-in: several samples at once, injectivity, CVR-driven look-up.",
@@ -70,7 +87,7 @@ TECH_MIX = ("contract-based deductive verification (pyvc VCs from /repo's AST, z
             "by bounded stand-ins (structure-bounded symbolic obligations and exhaustive small-scope run-time contract checks), labelled bounded")
 TECH_BOUNDED = ("bounded stand-in only (exhaustive small-scope run-time contract checking of the real function against an oracle written from the "
                 "property text); the contract is stated but no deductive proof of this function is within reach of the VC generator yet")
-ONLY_BOUNDED = {"C04", "C15"}
+ONLY_BOUNDED = set()
 NA_REASON = "check not built yet (construction in progress; planned as in DESIGN.md §4)"
 
 def main():
